@@ -83,7 +83,7 @@ TU64_KANI = {"harness": "tu64_decodes_exactly", "flags": ["-Z", "stubbing"], "ti
 PROPS["C10"] = dict(P(["handle", "handle_slices", "handle_gate", "tlv_dec", "tlv_get", "config"],
     "Proof (Verus): extract_trampoline_info/check_htlc verbatim: Trampoline(t) only if the metadata decodes, carries record 33001 whose utf-8 text parses to t.invoice, signature valid, invoice hash == HTLC hash, payee = signing key, amount rule (invoice amount, agreeing well-formed amount field; else exactly the declared amount), policy = configured; self-route-hint gate including the not-found half of the search (E8 closure contracts + env find).",
     HANDLE_NOTE, assumptions=["lightning_invoice parse/check_signature/get_payee_pub_key/route_hints behave as their uninterpreted views", "std iter().find returns the first match or None if no element matches (env HintIter::find)"],
-    bounded=["get_tu64 (Kani harness tu64_decodes_exactly): BOUNDED in the field length (0..=9 bytes, unwinding assertions on; these are the lengths the statement quantifies over), full domain in the content of the field; counted as a bounded stand-in for this one function, not as proved"]), kani=[TU64_KANI], kani_quick=True)
+    bounded=["get_tu64 (Kani harness tu64_decodes_exactly): BOUNDED in the field length (0..=9 bytes, unwinding assertions on), full domain in the content of the field; an additional check that yields concrete counterexamples -- the clause itself is proved for every length by Verus on the real body (unit tlv_dec), and only that proof is counted"]), kani=[TU64_KANI], kani_quick=True)
 PROPS["C13"] = P(["handle", "handle_slices", "handle_gate", "tlv_enc", "tlv_dec", "tlv_get", "hooks"],
     "Proof (Verus): the classification prefix of handle_htlc returns Continue (payload None, or the input records minus the first type-16 record, byte for byte and in order) or the self-hint Fail, with the ghost world unchanged (no RPC, no table access) on every path; check_htlc/default_response verbatim.",
     HANDLE_NOTE, assumptions=["std Vec / slice iteration semantics of env/vec_model.rs (find/position return the first match; Vec::remove removes exactly that element) under which get/remove are proved in unit tlv_get"])
@@ -119,9 +119,9 @@ PROPS["C20"] = P(["height", "rpc", "hooks", "dispatch"],
 
 PROPS["C18"] = dict(P(["tlv_dec", "tlv_enc", "tlv_get"],
     "Proof (Verus, unbounded loop invariant): get_compact_size, SerializedTlvStream::from_bytes and try_from(Vec<u8>) as extracted from src/tlv.rs are total (every bytes::Buf getter's remaining-length precondition is discharged: no panic on any byte string) and return exactly parse(bytes) of the BigSize/TLV spec functions in specs/tlv_spec.rs. Encoder: put_compact_size appends exactly cs_enc(x) (minimal BigSize), to_bytes returns the concatenation of the record encodings (loop invariant), and lemma_cs_roundtrip proves cs_dec(cs_enc(x) ++ rest) == (x, len) for all u64. Lemmas (checked on every run): lemma_parse_of_encoding: parse(enc_all(es)) == Some(es) for every record sequence (encode-then-decode reproduces the records), lemma_decode_then_encode: for every byte string that is an encoding (valid, minimally encoded stream) decoding then encoding reproduces the bytes. Composed with from_bytes == parse and to_bytes == enc_all this is the lossless clause for the real functions. Record access: get returns the first record of the type (None iff there is none), remove deletes exactly that record and keeps all others byte for byte and in order (unit tlv_get, real bodies, hint-free).",
-    "Trusted: " + TB_COMMON + " env/bytes.rs (mirror of bytes::Buf: big-endian getters, panic preconditions), AsRef view, 64-bit usize. get_tu64 (slice-range copy_from_slice / from_be_bytes are outside Verus' subset) is a contract-only stub in the Verus units and is decided by the Kani harness tu64_decodes_exactly on the real function for every content of every field of 0..=9 bytes.",
+    "Trusted: " + TB_COMMON + " env/bytes.rs (mirror of bytes::Buf: big-endian getters, panic preconditions), AsRef view, 64-bit usize. get_tu64 is proved on its real body in unit tlv_dec (every length: 0..=8 bytes decode to their big-endian value, more are rejected, no panic) with two catalogued adaptations: E16 (`b[i..].copy_from_slice(s)` -> env copy_into_tail with the std panic conditions as preconditions) and the path `u64::from_be_bytes` resolved to an env function of the same meaning (env/tlv_tu64_env.rs: Verus cannot attach a specification to the std function); Buf::chunk() is assumed to be everything that remains (true for the three contiguous buffer types ProtoBuf is implemented for). The Kani harness tu64_decodes_exactly runs the unmodified function for every content of every field of 0..=9 bytes as a second, bounded check.",
     assumptions=["env/bytes.rs describes bytes-1.6 Buf for &[u8], Bytes and Take<Bytes>", "64-bit target"],
-    bounded=["get_tu64 (Kani harness tu64_decodes_exactly): BOUNDED in the field length (0..=9 bytes, unwinding assertions on; these are the lengths the statement quantifies over), full domain in the content of the field; counted as a bounded stand-in for this one function, not as proved"]), kani=[TU64_KANI], kani_quick=True)
+    bounded=["get_tu64 (Kani harness tu64_decodes_exactly): BOUNDED in the field length (0..=9 bytes, unwinding assertions on), full domain in the content of the field; an additional check that yields concrete counterexamples -- the clause itself is proved for every length by Verus on the real body (unit tlv_dec), and only that proof is counted"]), kani=[TU64_KANI], kani_quick=True)
 
 NOT_APPLICABLE = {
 }
@@ -142,7 +142,7 @@ PROVED_IN = {
     "htlc_manager::PaymentState::fail": "unit paystate",
     "tlv::ProtoBuf::get_compact_size": "unit tlv_dec",
     "tlv::SerializedTlvStream::get": "unit tlv_get",
-    "tlv::ProtoBuf::get_tu64": "Kani harness tu64_decodes_exactly (every content of every field of 0..=9 bytes), run by ./check C10 and ./check C18",
+    "tlv::ProtoBuf::get_tu64": "unit tlv_dec (and, bounded, the Kani harness tu64_decodes_exactly)",
     "tlv::SerializedTlvStream::remove": "unit tlv_get",
     "tlv::SerializedTlvStream::from_bytes": "unit tlv_dec",
     "tlv::SerializedTlvStream::try_from": "unit tlv_dec",
